@@ -64,7 +64,10 @@ type Document struct {
 	// pointerCache is setup once when the document is created.
 	pointerCache sync.Map // map[string]Node
 
-	families FamilyNodes
+	// families is filled in when it is first needed, possibly from several
+	// goroutines when individuals are compared with more than one job.
+	families      FamilyNodes
+	familiesMutex sync.Mutex
 }
 
 // String will render the entire GEDCOM document.
@@ -133,6 +136,9 @@ func (doc *Document) NodeByPointer(ptr string) Node {
 
 // Families returns the family entities in the document.
 func (doc *Document) Families() (families FamilyNodes) {
+	doc.familiesMutex.Lock()
+	defer doc.familiesMutex.Unlock()
+
 	if doc.families != nil {
 		return doc.families
 	}
